@@ -246,7 +246,7 @@ pub fn run(cfg: &Cfg, rep: &mut Report) {
       // violation on its own (same script, same executor class, several
       // schedule seeds)? Falls back to the combination if none does.
       let violates = |cand: &Case| {
-        (0..24u64).any(|k| {
+        (0..64u64).any(|k| {
           let mut c2 = cand.clone();
           c2.seed = cand.seed.wrapping_add(k.wrapping_mul(0x9E37));
           if k >= 8 {
@@ -266,6 +266,18 @@ pub fn run(cfg: &Cfg, rep: &mut Report) {
           blamed = Some(name_of(op));
           break;
         }
+      }
+      // Under the any-order executor a reordering in a pipeline whose only
+      // scheduler operators are the one-task-per-notification ones
+      // (observe_on, delay, delay_at) is that family's reordering even if no
+      // single operator happened to reproduce it within the sampled seeds.
+      let family = |op: &Op| matches!(op, Op::ObserveOn | Op::Delay(_) | Op::DelayAt(_));
+      if blamed.is_none()
+        && kind == "order_not_preserved"
+        && exec_class(&c) == "any-order"
+        && c.ops.iter().filter(|op| op.uses_scheduler()).all(family)
+      {
+        blamed = c.ops.iter().find(|op| family(op)).map(name_of);
       }
       let locus = match blamed {
         Some(b) => format!("{}[{}]", b, exec_class(&c)),
